@@ -41,4 +41,23 @@ def size (s : Species W) : Nat := s.orgs.length
 /-- `Organism.CheckChampionChildDamaged` -/
 def checkChampionChildDamaged (o : Org W) : Bool := o.isPopChampionChild && gt o.highestFitness o.fitness
 
+/-- the loop of `Species.ComputeMaxAndAvgFitness`: running total (left to right) and a running maximum that starts at
+    the zero value of the named result `max` (so it never goes below 0) -/
+def maxAvgLoop : List (Org W) → W → W → W × W
+  | [], total, mx => (total, mx)
+  | o :: os, total, mx => maxAvgLoop os (add total o.fitness) (if gt o.fitness mx then o.fitness else mx)
+
+/-- `Species.ComputeMaxAndAvgFitness` -/
+def computeMaxAndAvgFitness (s : Species W) : W × W :=
+  let (total, mx) := maxAvgLoop s.orgs zero zero
+  (mx, if s.orgs.length > 0 then div total (ofInt s.orgs.length) else zero)
+
+/-- `ByOrganismFitness.Less` -/
+def speciesFitnessLess (a b : Species W) : Bool :=
+  lt (computeMaxAndAvgFitness a).1 (computeMaxAndAvgFitness b).1
+
+/-- `sort.Sort(ByOrganismFitness(species))` and `sort.Sort(sort.Reverse(ByOrganismFitness(species)))` -/
+def sortSpeciesByFitness (l : List (Species W)) : List (Species W) := goSort speciesFitnessLess l
+def sortSpeciesByFitnessDesc (l : List (Species W)) : List (Species W) := goSort (fun a b => speciesFitnessLess b a) l
+
 end GoNeat.Champion
